@@ -81,6 +81,9 @@ Section Pull.
       - eapply (tomb_clash mkdig mkdig_inj); eauto.
       - destruct NT as (b2 & E2 & N2). rewrite E in E2. apply (mkid_inj mkdig mkdig_inj) in E2.
         destruct E2 as [E2 E3]. congruence. }
+    assert (US : unsendable false bB = false).
+    { unfold unsendable. cbn [negb andb]. apply N.eqb_neq. apply BBok. }
+    rewrite US.
     unfold put_existing. cbn [split_known]. rewrite Ca.
     destruct (split_known (ptree A) rest) as [n p] eqn:SK.
     assert (SK' : split_known (ptree A) (cb :: rest) = (cb :: n, p)) by (cbn [split_known]; rewrite Ca, SK; reflexivity).
